@@ -264,6 +264,9 @@ def enum_fact(tier, shard, nshards):
     for n in range(-6, 171):
         if n % nshards == shard:
             yield n
+    if shard == 0:
+        for x in (-0.5, -0.25, -0.999, -1e-9, -1.5, -2.75):
+            yield x
 
 
 def check_fact(n):
@@ -385,6 +388,9 @@ def check_base(case):
 
 
 def enum_roman(tier, shard, nshards):
+    # first a few numbers whose numerals stop early in the table of numerals (a table remembered from the first call must still serve the later ones)
+    for n in (1000, 3000, 499, 10, 900, 1994):
+        yield n
     for n in range(1, 4000):
         if n % nshards == shard:
             yield n
